@@ -20,7 +20,7 @@ type Lin struct {
 }
 
 func linConst(c int64) Lin { return Lin{c: c, t: map[string]int64{}} }
-func linAtom(a string) Lin  { return Lin{t: map[string]int64{a: 1}} }
+func linAtom(a string) Lin { return Lin{t: map[string]int64{a: 1}} }
 
 func (l Lin) clone() Lin {
 	n := Lin{c: l.c, t: make(map[string]int64, len(l.t))}
